@@ -180,6 +180,13 @@ class Engine(StmtMixin, EvalMixin, Interp):
                 if isinstance(s, SymIter):
                     s = interp.iter_remaining(s) if isinstance(s.seq, (SList, LazySeq)) else interp.iterate_concrete(s)
                 norm.append(s)
+            if any(isinstance(s, LazySeq) and s.length is None for s in norm):
+                # an endless counter zipped with finite sequences
+                finite = [interp.iterate_concrete(s) for s in norm if not (isinstance(s, LazySeq) and s.length is None)]
+                n = min(len(f) for f in finite) if finite else 0
+                cols = [([s.get(i) for i in range(n)] if (isinstance(s, LazySeq) and s.length is None)
+                         else interp.iterate_concrete(s)[:n]) for s in norm]
+                return [tuple(t) for t in zip(*cols)]
             if any(isinstance(s, (SList, LazySeq)) and not isinstance(s.length, int) for s in norm):
                 if not all(isinstance(s, (SList, LazySeq)) for s in norm):
                     raise Unsupported("zip of symbolic and concrete sequences")
@@ -431,8 +438,7 @@ class Engine(StmtMixin, EvalMixin, Interp):
         X["functools.reduce"] = self.ext_reduce
         X["itertools.chain"] = self.ext_chain
         X["itertools.islice"] = self.ext_islice
-        X["itertools.count"] = lambda interp, a, k: LazySeq(z3.IntVal(10**9), lambda i, _s=(a[0] if a else 0): _s + i,
-                                                            "count")
+        X["itertools.count"] = lambda interp, a, k: LazySeq(None, lambda i, _s=(a[0] if a else 0): _s + i, "count")
         X["itertools.zip_longest"] = self.ext_zip_longest
         X["warnings.warn"] = lambda interp, a, k: None
         X["dataclasses.astuple"] = lambda interp, a, k: tuple(
